@@ -248,6 +248,10 @@ func GenerateRoutes(
 		logger.Fatal("Could not write output file at '%s' with permissions '%v' - %v", args.OutputPath, args.OutputFilePerms, err)
 		return err
 	}
+	// os.WriteFile applies the permissions only when it creates the file - on regeneration the file already exists
+	if err := os.Chmod(args.OutputPath, getOutputFileMod(args.OutputFilePerms)); err != nil {
+		logger.Warn("Could not apply permissions '%v' to output file '%s' - %v", args.OutputFilePerms, args.OutputPath, err)
+	}
 	verifhook.Emit("RoutesWritten", "path", args.OutputPath)
 
 	return nil
